@@ -18,7 +18,7 @@ structure UnitOK (ds : List Decl) : Prop where
   ordered : refsOrdered ds [] [] = true
   objs : ∀ x, x ∈ objNames ds → ObjOK ds x
   noFrozen : flagsFrozenDefRegion ds = false
-  noDeadSL : deadStaticLocalRegion ds = false
+  noDeadSL : deadStaticLocalVisibleRegion ds = false
 
 section
 variable {ds : List Decl} (u : UnitOK ds)
